@@ -977,6 +977,28 @@ func registerIntrinsics(e *Engine) {
 		return ex.callBody(fn, a)
 	}
 
+	// hex of symbolic bytes stays symbolic and is inverted algebraically
+	I["encoding/hex.EncodeToString"] = func(ex *Exec, fn *ssa.Function, a []Value) Value {
+		bs := ex.sliceBytes(a[0].(SliceV))
+		all := true
+		for _, b := range bs {
+			if !b.isConst {
+				all = false
+			}
+		}
+		if all {
+			return ex.callFunctionNoIntrinsic(fn, a, nil)
+		}
+		return &StrV{hexSrc: bs}
+	}
+	I["encoding/hex.DecodeString"] = func(ex *Exec, fn *ssa.Function, a []Value) Value {
+		s := a[0].(*StrV)
+		if s.hexSrc != nil {
+			return TupleV{ex.bytesSlice(append([]*Term(nil), s.hexSrc...)), IfaceV{}}
+		}
+		return ex.callFunctionNoIntrinsic(fn, a, nil)
+	}
+
 	// unique.Make: canonical handle per distinct value
 	I["unique.Make"] = func(ex *Exec, fn *ssa.Function, a []Value) Value {
 		vt := fn.Signature.Params().At(0).Type()
